@@ -462,6 +462,8 @@ pub fn fmt_path(p: &[Branch]) -> String {
 #[derive(Default)]
 pub struct DfsOracle {
     prev: Vec<(u8, u8)>,
+    /// the previous iteration's decisions with loom's bookkeeping (thread states, candidates)
+    prev_full: Vec<Branch>,
     /// alternatives already taken at each depth of the current prefix
     taken: Vec<Vec<(u8, u8)>>,
     pub paths: u64,
@@ -474,9 +476,19 @@ impl DfsOracle {
         let cur: Vec<(u8, u8)> = path.iter().map(bk).collect();
         self.paths += 1;
         self.max_depth = self.max_depth.max(cur.len());
+        // every scheduling decision has exactly one thread marked as running, the chosen one
+        for (d, b) in path.iter().enumerate() {
+            if b.kind == BranchKind::Schedule && b.chosen != 255 {
+                let active: Vec<usize> = (0..b.threads.len()).filter(|&t| b.threads[t] == loom::verif::thread_state::ACTIVE).collect();
+                if active != vec![b.chosen as usize] {
+                    return Some(("two_alternatives_at_once".to_string(), format!("depth {}: threads marked active {:?}, thread {} runs", d, active, b.chosen)));
+                }
+            }
+        }
         if self.paths == 1 {
             self.taken = cur.iter().map(|c| vec![*c]).collect();
             self.prev = cur;
+            self.prev_full = path.to_vec();
             return None;
         }
         let k = match (0..cur.len().min(self.prev.len())).find(|&i| cur[i] != self.prev[i]) {
@@ -492,12 +504,29 @@ impl DfsOracle {
         if self.taken[k].contains(&cur[k]) {
             return Some(("not_depth_first".to_string(), format!("depth {}: alternative {:?} was already explored under this prefix", k, cur[k])));
         }
+        // depth-first: the decisions below depth k are given up now, so none of them may still
+        // have an alternative queued for exploration
+        for d in k + 1..self.prev_full.len() {
+            let b = &self.prev_full[d];
+            if !b.exploring {
+                continue;
+            }
+            let left = match b.kind {
+                BranchKind::Schedule => (0..b.threads.len()).any(|t| b.threads[t] == loom::verif::thread_state::PENDING || (b.threads[t] == loom::verif::thread_state::ACTIVE && t != b.chosen as usize)),
+                BranchKind::Load => (b.chosen as usize) + 1 < b.len as usize,
+                BranchKind::Spurious => b.chosen == 0,
+            };
+            if left {
+                return Some(("alternative_abandoned".to_string(), format!("iteration {} backs up to depth {} although the decision at depth {} ({:?}) still has an alternative queued", self.paths, k, d, b.kind)));
+            }
+        }
         self.taken.truncate(k + 1);
         self.taken[k].push(cur[k]);
         for c in &cur[k + 1..] {
             self.taken.push(vec![*c]);
         }
         self.prev = cur;
+        self.prev_full = path.to_vec();
         None
     }
 }
@@ -976,7 +1005,75 @@ fn first_diff(a: &[String], b: &[String]) -> String {
     }
 }
 
+/// Prelude invariance: the program starts with an independent racing prelude that main joins
+/// (see `families::with_prelude`). Iterations are grouped by the prelude's decisions (the path up
+/// to the position noted by `Mark`); the sequence of (tail decisions, results) must be the same
+/// in every group - the state after the prelude is the same, so nothing from an earlier
+/// iteration may change how the rest is explored.
+fn eval_c16_prelude(job: &Job) -> JobResult {
+    let p = &job.program;
+    let mut res = JobResult::default();
+    // (prelude decisions, tail signature) per iteration, in order
+    let rows: std::rc::Rc<std::cell::RefCell<Vec<(Vec<(u8, u8)>, String)>>> = Default::default();
+    let r2 = rows.clone();
+    let sink = move |it: &IterData| {
+        let pos = it.notes.iter().find(|n| n.0 == 40).map(|n| n.1 as usize);
+        let all: Vec<(u8, u8)> = it.path.iter().map(bk).collect();
+        let (pre, tail) = match pos {
+            Some(k) if k <= all.len() => (all[..k].to_vec(), all[k..].to_vec()),
+            _ => (all.clone(), vec![]),
+        };
+        // results of the original program's threads only (the prelude's two threads come last)
+        let own: Outcome = it.results[..it.results.len().saturating_sub(2)].to_vec();
+        let sig = format!("{:?} {} {}", tail, fmt_outcome(&own), if it.panicked { "PANICKED" } else { "" });
+        r2.borrow_mut().push((pre, sig));
+    };
+    let (sum, _) = subject::run(p, &job.cfg, sink);
+    let rows = rows.borrow();
+    res.loom_iterations = rows.len() as u64;
+    res.verdict = sum.verdict.short();
+    res.capped = sum.verdict == Verdict::Capped;
+    if res.capped {
+        return res;
+    }
+    let mut groups: Vec<(Vec<(u8, u8)>, Vec<String>)> = vec![];
+    for (pre, sig) in rows.iter() {
+        match groups.last_mut() {
+            Some((gp, sigs)) if gp == pre => sigs.push(sig.clone()),
+            _ => groups.push((pre.clone(), vec![sig.clone()])),
+        }
+    }
+    res.states = groups.len() as u64;
+    res.transitions = rows.len() as u64;
+    res.nontrivial = groups.len() >= 2 && groups[0].1.len() >= 2;
+    res.sample = json!({"mode": "prelude", "program": p.text(), "groups": groups.len(), "tail_iterations": groups.iter().map(|g| g.1.len()).collect::<Vec<_>>(), "verdict": res.verdict});
+    // a failing run stops inside the first group: nothing to compare
+    if sum.verdict != Verdict::Ok {
+        return res;
+    }
+    if groups.len() < 2 {
+        res.violations.push(viol("prelude_not_explored", format!("{} groups", groups.len()), "both orders of the racing prelude are explored".into(), String::new(), json!({})));
+        return res;
+    }
+    for g in &groups[1..] {
+        if g.1 != groups[0].1 {
+            let k = (0..g.1.len().min(groups[0].1.len())).find(|&i| g.1[i] != groups[0].1[i]);
+            let what = match k {
+                Some(i) => format!("tail iteration {}: {} vs {}", i + 1, groups[0].1[i], g.1[i]),
+                None => format!("{} vs {} tail iterations", groups[0].1.len(), g.1.len()),
+            };
+            res.violations.push(viol("tail_depends_on_history", "prelude".into(), "the sub-tree explored after the prelude is the same under every order of the prelude".into(), what, json!({"first_group": groups[0].1.len(), "this_group": g.1.len()})));
+            break;
+        }
+        res.traces_validated += g.1.len() as u64;
+    }
+    res
+}
+
 fn eval_c16(job: &Job) -> JobResult {
+    if job.extra.get("mode").and_then(|v| v.as_str()) == Some("prelude") {
+        return eval_c16_prelude(job);
+    }
     let p = &job.program;
     let mut res = JobResult::default();
     let mode = job.extra.get("mode").and_then(|v| v.as_str()).unwrap_or("isolated").to_string();
